@@ -22,10 +22,15 @@ def configs(tier):
             {"name": "sys", "sb": None, "atts": [0], "maxfault": 0,
              "lens": lambda m, f: fragcheck.boundary_lens(m, f, ks=(1, 2), radius=16)},
         ]
-    return base + [
-        {"name": "sb65536", "sb": 65536, "lens": lens_boundary, "atts": [0], "maxfault": 0},
-        {"name": "sb20000", "sb": 20000, "lens": lens_boundary, "atts": [0], "maxfault": 0},
-        {"name": "sys", "sb": None, "lens": lens_boundary, "atts": [0], "maxfault": 0},
+    wide = lambda m, f: fragcheck.boundary_lens(m, f, ks=(1, 2, 3, 4, 5, 6, 9), radius=72)
+    return [
+        {"name": "sb4096", "sb": 4096, "lens": wide, "atts": [0], "maxfault": 0},
+        {"name": "sb8192", "sb": 8192, "lens": wide, "atts": [0], "maxfault": 0},
+        {"name": "sb5001", "sb": 5001, "lens": wide, "atts": [0], "maxfault": 0},
+        {"name": "sb12347", "sb": 12347, "lens": wide, "atts": [0], "maxfault": 0},
+        {"name": "sb65536", "sb": 65536, "lens": wide, "atts": [0], "maxfault": 0},
+        {"name": "sb20000", "sb": 20000, "lens": wide, "atts": [0], "maxfault": 0},
+        {"name": "sys", "sb": None, "lens": wide, "atts": [0], "maxfault": 0},
     ]
 
 
@@ -51,7 +56,7 @@ def api_level(tier, violations, samples):
                 lens += [rnd.randrange(4 << 20, 64 << 20) for _ in range(2)] + [64 << 20]
             else:
                 lens += [rnd.randrange(0, 1 << 20) for _ in range(20)]
-            job = {"seed": rnd.randrange(1 << 30), "nvalues": 150 if tier == "quick" else 600, "lens": lens,
+            job = {"seed": rnd.randrange(1 << 30), "nvalues": 150 if tier == "quick" else 3000, "lens": lens,
                    "maxbytes": 3 * eff}
             env = {"IPC_VERIF_SENDBUF": sb} if sb else {}
             p = run_harness(variant, ["values"], env=env, stdin=json.dumps(job) + "\n", timeout=1500)
